@@ -4,7 +4,7 @@ from ..build import AnalysisBroken
 from ..callgraph import connects
 from ..effects import field_uses, top_function
 
-UNITS = ['client/QXmppRosterManager.cpp', 'client/QXmppOutgoingClient.cpp', 'client/QXmppSaslManager.cpp', 'base/QXmppStreamManagement.cpp', 'base/Stream.cpp']
+UNITS = ['client/QXmppRosterManager.cpp', 'client/QXmppConfiguration.cpp', 'client/QXmppOutgoingClient.cpp', 'client/QXmppSaslManager.cpp', 'base/QXmppStreamManagement.cpp', 'base/Stream.cpp']
 RM = 'QXmppRosterManager'
 ENTRIES = 'QXmppRosterManagerPrivate::entries'
 PRESENCES = 'QXmppRosterManagerPrivate::presences'
@@ -327,6 +327,87 @@ def run(prog, run):
         else:
             run.violation(r5, '_q_presenceReceived#%s#%s' % (case, h.split(' ')[-1]), f.loc(i),
                           'presence table written with %s under case %s' % (h, case))
+    r6_bound_address(prog, run)
+    r7_keys(prog, run)
+
+
+def r6_bound_address(prog, run):
+    """the own address pushes are compared with is the address the server bound"""
+    from . import C02
+    rid = run.rule('C12.R6', 'the sender check of roster pushes compares with configuration().jidBare(); after resource binding that is the address the server bound: on the '
+                             'success path of the binding continuation the configuration\'s user and domain are both set from the bound address (a server may bind another '
+                             'address than the login name; pushes stamped with it would otherwise be refused as foreign and answered with an error)', floor=1)
+    field, vals, ptrs, replaces_listener, rec = C02.listener_model(prog)
+    bind = [v for v in vals if v.split('::')[-1].startswith('Bind')]
+    if len(bind) != 1:
+        raise AnalysisBroken('C12.R6: the resource-binding listener was not identified among %s' % vals)
+    primary = {}
+    for nm in ('user', 'domain'):
+        g = prog.fn('QXmppConfiguration::' + nm)
+        for _, r in g.returns():
+            if 'e' in r and g.nodes[g.skip(r['e'])]['k'] == 'mem':
+                primary[g.nodes[g.skip(r['e'])]['f']] = nm
+    if len(primary) != 2:
+        raise AnalysisBroken('C12.R6: the members behind QXmppConfiguration::user() / domain() were not identified')
+    wcache = {}
+
+    def written(g, depth=0):
+        if g.id in wcache:
+            return wcache[g.id]
+        wcache[g.id] = frozenset()
+        out = set()
+        for i, n in g.all_nodes('assign'):
+            l = g.nodes[g.skip(n['l'])]
+            if l.get('f') in primary:
+                out.add(primary[l['f']])
+        for i, n in g.calls():
+            if n.get('op') == '=' and n.get('opargs') and g.nodes[g.skip(n['opargs'][0])].get('f') in primary:
+                out.add(primary[g.nodes[g.skip(n['opargs'][0])]['f']])
+            if depth < 2 and not n.get('op'):
+                for c in prog.callee_fns(g, n):
+                    if c.entry is not None and c.record == 'QXmppConfiguration':
+                        out |= written(c, depth + 1)
+        wcache[g.id] = frozenset(out)
+        return wcache[g.id]
+    sites = 0
+    for v, f, i, lams in C02.listener_continuations(prog, bind):
+        for lam in lams:
+            sites += 1
+            run.instance(rid)
+
+            def custom(g, nid, st):
+                n = g.nodes[nid]
+                if n['k'] == 'call' and (g.cname(n) or '') in ('std::get_if', 'std::holds_alternative'):
+                    first = ((g.sym(n) or {}).get('targs') or '').split(',')[0]
+                    return ('BoundAddress' in first,)
+                return None
+            ev = cfgx.Evaluator(lam, {}, custom=custom)
+
+            def transfer(g, nid, st):
+                n = g.nodes[nid]
+                if n['k'] != 'call' or n.get('op'):
+                    return None
+                out = st
+                for c in prog.callee_fns(g, n):
+                    if c.entry is None or c.record != 'QXmppConfiguration':
+                        continue
+                    from_bound = any(g.nodes[j]['k'] == 'mem' and 'BoundAddress::' in (g.nodes[j].get('f') or '') for a in n.get('args', []) for j in g.walk(a))
+                    if from_bound:
+                        for w in sorted(written(c)):
+                            if w not in out:
+                                out = out + (w,)
+                return out if out != st else None
+            exits, _ = cfgx.explore(lam, (), transfer, lambda g, c, st: ev.ev(c, st), max_states=20000)
+            bad = [(st, w) for st, w in exits.items() if not {'user', 'domain'} <= set(st)]
+            if bad:
+                missing = sorted({'user', 'domain'} - set(bad[0][0]))
+                run.violation(rid, '%s#bound-address-not-adopted:%s' % (f.outer_name(), '+'.join(missing)), lam.loc(),
+                              'the resource-binding continuation in %s does not store the bound %s in the configuration: jidBare() keeps the login address, and roster pushes the server '
+                              'stamps with the bound address are rejected as foreign' % (f.display()[:50], ' and '.join(missing)), cfgx.describe_path(lam, bad[0][1]))
+            else:
+                run.ok(rid, lam.loc(), 'user and domain are set from the bound address on every success path (%d)' % len(exits))
+    if not sites:
+        raise AnalysisBroken('C12.R6: the continuation of the resource binding was not found')
 
 
 def _over_all_items(f, nid):
@@ -409,3 +490,63 @@ def _resumed_flag(prog, run, rid):
                       'neither clears its cache nor requests the roster and shows the contacts and presences of the earlier session')
     else:
         run.ok(rid, 'src/client/QXmppOutgoingClient.cpp', 'ResumedStream cannot be a leftover: m_streamResumed is reset for every new stream (C10.R1)')
+
+
+_KEY_CONVERSIONS = ('QString::toLower', 'QString::toUpper', 'QString::toCaseFolded', 'QString::trimmed', 'QString::simplified', 'QString::normalized', 'QString::left',
+                    'QString::mid', 'QString::chopped', 'QString::section')
+
+
+def _conversion_in(f, nid, depth=0):
+    for j in f.walk(nid):
+        m = f.nodes[j]
+        if m['k'] == 'call' and (f.cname(m) or '') in _KEY_CONVERSIONS:
+            return j
+        if m['k'] == 'var' and m.get('vk') == 'local' and depth < 3:
+            for d in f.all_defs(m.get('decl')):
+                if d is not None:
+                    r = _conversion_in(f, d, depth + 1)
+                    if r is not None:
+                        return r
+    return None
+
+
+def r7_keys(prog, run):
+    rid = run.rule('C12.R7', 'the full roster and the pushes address the cache by the same key: every access to the entries map by a key taken from a received item uses the item\'s '
+                             'bare JID as it is (no case folding, trimming or cutting on one side only - an update would create a second entry and a removal would miss)', floor=3)
+    n = 0
+    for f in prog.fns.values():
+        if f.entry is None or not f.file.endswith('QXmppRosterManager.cpp'):
+            continue
+        for i, c in f.calls():
+            if c.get('obj') is None:
+                continue
+            o = f.nodes[f.skip(c['obj'])]
+            keyargs = c.get('args', [])
+            if c.get('op') == '[]' and len(c.get('opargs', [])) == 2:
+                o = f.nodes[f.skip(c['opargs'][0])]
+                keyargs = c['opargs'][1:]
+            if o.get('f') != ENTRIES or not keyargs:
+                continue
+            n += 1
+            run.instance(rid)
+            conv = _conversion_in(f, keyargs[0])
+            if conv is not None:
+                run.violation(rid, '%s#converted-key' % f.outer_name(), f.loc(i),
+                              '%s accesses the roster cache with a converted key (%s): the other writers store items under the bare JID as received, so this access does not meet '
+                              'their entries' % (f.display()[:50], f.fmt(conv, inline=False)[:60]))
+            else:
+                run.ok(rid, f.loc(i), 'key %s used as it is' % f.fmt(keyargs[0])[:40], nontrivial=False)
+    for f in prog.fns.values():
+        if f.entry is None or not f.file.endswith('QXmppRosterManager.cpp'):
+            continue
+        for i, c in f.calls():
+            if c.get('op') == '[]' and len(c.get('opargs', [])) == 2 and f.nodes[f.skip(c['opargs'][0])].get('f') == ENTRIES:
+                n += 1
+                run.instance(rid)
+                conv = _conversion_in(f, c['opargs'][1])
+                if conv is not None:
+                    run.violation(rid, '%s#converted-key' % f.outer_name(), f.loc(i), '%s indexes the roster cache with a converted key (%s)' % (f.display()[:50], f.fmt(conv, inline=False)[:60]))
+                else:
+                    run.ok(rid, f.loc(i), 'key used as it is', nontrivial=False)
+    if n < 3:
+        raise AnalysisBroken('C12.R7: keyed accesses to the entries map not found')
